@@ -885,6 +885,56 @@ def smc_accessors_rule(ctx, rule="ALG-smc"):
     ck.done()
 
 
+def smc_estimate_rule(ctx, rule="ALG-smc"):
+    """ParticleCollection.estimate(fn) is the self-normalised weighted average Σ_i w̃_i fn(choices_i), w̃ = exp(lw − logsumexp(lw)), with fn mapped
+    over the particles' own choices (C10: "estimate-weighted particle averages")."""
+    ev = mk_ev(ctx)
+    dotted = SMC + "ParticleCollection.estimate"
+    s = summarize(ctx, ev, dotted)
+    lin = Lin_nosum(ev)
+    ck = Checker(ctx, ev, lin, rule, "smc.ParticleCollection.estimate", func_loc(ctx, dotted))
+    S = ("param", "self")
+    lw = ("attr", S, "log_weights")
+    wn = call(N("jax.numpy.exp"), ("binop", "-", lw, lse(lw)))
+    vm = [r for r in ev.vmaps.values() if r["f"] == ("param", "fn")]
+    if len(vm) != 1:
+        ck.fail("fn is mapped over the particles once", f"{len(vm)} vectorised applications of fn")
+        ck.done()
+        return
+    rec = vm[0]
+    tr_choices = [CH(("attr", S, "traces")), ("call", ("attr", ("attr", S, "traces"), "get_choices"), (), ())]
+    if len(rec["args"]) != 1 or lin.norm(rec["args"][0]) not in [lin.norm(x) for x in tr_choices] or rec["kwargs"]:
+        ck.fail("fn is applied to the particles' own choices", f"found {short(('tuple', rec['args']), ev, 120)}")
+    if rec["in_axes"] not in (None, C(0), ("tuple", (C(0),))):
+        ck.fail("fn is mapped along the particle axis", f"in_axes={short(rec['in_axes'], ev)}")
+    vals = [x for x in subterms(s.ret) if x[0] == "lanes" and ev.vmaps.get(x[1]) is rec]
+    if not vals:
+        raise AnalysisError("smc.ParticleCollection.estimate: mapped values not found in the result")
+    V = vals[0]
+    seen = 0
+    for asg, leaf in all_cases(s.ret):
+        if not is_call(leaf, name="jax.numpy.sum") or len(leaf[2]) != 1:
+            ck.fail("weighted sum over particles", f"found {short(leaf, ev, 160)}")
+            continue
+        seen += 1
+        prod = leaf[2][0]
+        axis = ev.kwget(leaf[3], "axis")
+        w_plain = ("binop", "*", wn, V)
+        w_col = ("binop", "*", ("idx", wn, ("tuple", (("slice", NONE, NONE, NONE), NONE))), V)
+        if axis is None:
+            ck.lineq("scalar values: Σ normalised weight · value", prod, w_plain)
+        elif axis == C(0):
+            got = lin.norm(prod)
+            if got not in (lin.norm(w_col), lin.norm(("binop", "*", w_col[3], w_col[2]))):
+                # compare through the polynomial form with the broadcast weight as an atom
+                ck.lineq("array values: Σ_i normalised weight_i · value_i along the particle axis", prod, w_col)
+        else:
+            ck.fail("sum runs over the particle axis", f"axis={short(axis, ev)}")
+    if seen == 0:
+        ck.fail("weighted sum over particles", "no summation found")
+    ck.done()
+
+
 def Lin_nosum(ev):
     from ..linform import Lin
     return Lin(ev, axioms=[std_axioms], sum_transparent=False)
